@@ -62,3 +62,24 @@ for p in list(NOT_APPLICABLE):
         del NOT_APPLICABLE[p]
 for e in ENGINES:
     e['serves_properties'] = sorted(CHECKS)
+
+_c('C12', 'exploration',
+   'exhaustive request cross-product against prepared world states with a no-effect state-digest oracle',
+   'The product method x EIO x transport x sid kind x Upgrade/Connection headers x JSONP index x configured transports is issued on both real servers against a world replayed into a state holding one session of every kind plus a bystander with queued packets; the admission reference decides admit/400/405 and for refusals the digest of all live sessions, the event log and the live-id set must be unchanged.',
+   'Sessions are prepared at one virtual instant; the no-effect digest walks the socket objects generically; ASGI upgrade requests arrive as websocket scopes.',
+   'DESIGN.md 5 C12')
+_c('C13', 'exploration',
+   'exhaustive origin-policy cross-product on both servers with a no-effect state-digest oracle',
+   'All cors_allowed_origins forms x credentials x 13 Origin values (prefix, suffix, port, case, null, forwarded...) x Host / X-Forwarded-* combinations x six request kinds are issued on both real servers; disallowed origins must get 400 with the session state, queues and handler log unchanged, CORS response headers must never over-grant.',
+   'Scheme is http in every world; case variants and the empty Origin carry no status verdict.',
+   'DESIGN.md 5 C13')
+_c('C19', 'exploration',
+   'bounded-exhaustive payload x JSONP and Accept-Encoding x threshold enumeration with an ECMAScript string-literal evaluator as oracle',
+   'Every message string up to a length bound over a 14-symbol alphabet (quotes, backslash, line terminators, U+2028/9, NUL, non-BMP) x JSONP indices, and bodies of exactly L bytes x thresholds around L x 14 Accept-Encoding shapes x compression on/off, are polled from both real servers; the body is decompressed as declared and, for JSONP, evaluated as one ___eio[n]("...") statement and compared with the packets queued.',
+   'One-directional compression oracle; ES2019 string-literal rules.',
+   'DESIGN.md 5 C19')
+for p in list(NOT_APPLICABLE):
+    if p in CHECKS:
+        del NOT_APPLICABLE[p]
+for e in ENGINES:
+    e['serves_properties'] = sorted(CHECKS)
